@@ -697,7 +697,10 @@ impl Inner {
             }
         };
 
-        if stream.is_pending_open {
+        // A request that is still queued is idle for the peer. A promised
+        // stream waiting for a concurrency slot is not: its PUSH_PROMISE has
+        // been sent, and the peer may refuse or cancel it.
+        if stream.is_pending_open && !self.counts.peer().is_server() {
             proto_err!(conn: "recv_reset: received frame on idle stream {:?}", id);
             return Err(Error::library_go_away(Reason::PROTOCOL_ERROR));
         }
@@ -734,7 +737,9 @@ impl Inner {
             // The remote may send window updates for streams that the local now
             // considers closed. It's ok...
             if let Some(mut stream) = self.store.find_mut(&id) {
-                if stream.is_pending_open {
+                // (a promised stream waiting for a concurrency slot is
+                // reserved, not idle: see `recv_reset`)
+                if stream.is_pending_open && !self.counts.peer().is_server() {
                     proto_err!(conn: "recv_window_update: received frame on idle stream {:?}", id);
                     return Err(Error::library_go_away(Reason::PROTOCOL_ERROR));
                 }
